@@ -53,7 +53,7 @@ def main(scratch, tag, n=3, want=None):
                 if 'a' in b: print('     a=%s b=%s' % (txt(b['a']), txt(b['b'])))
                 for r in recs[1:]:
                     if r['op'] == 'Diff': print('        diff:', ' ; '.join(hunk(h) for h in r['diff']))
-                    elif r['op'] == 'Target': print('        target sub=%s c=%s' % (r['sub'], txt(r['c'])))
+                    elif r['op'] == 'Target': print('        target t=%s sub=%s c=%s' % (r.get('t'), r['sub'], txt(r['c'])))
                     elif r['op'] == 'PatchStep':
                         rs = r['res']; print('        step %d: %s %s' % (r['k'], rs['st'], txt(rs['doc']) if 'doc' in rs else rs.get('msg', '')))
                     elif r['op'] in ('Equals', 'EqualsAB'): print('        %s: %s' % (r['op'], r['res'].get('bool')))
